@@ -25,6 +25,16 @@ def plan(prop, tier):
         # both borders under the interior root emptied at the same time (collapse while the sibling that becomes root is being deleted itself)
         J.append(("pair", "pre1", ["scenarios=%d" % (6 if q else 30), "threads=2", "opsper=2", "directed=4"]))
         J.append(("pair", "pct", ["scenarios=%d" % (6 if q else 30), "runs=%d" % (15 if q else 40), "threads=3", "opsper=2", "directed=4"]))
+        # two interior levels: an interior with two children collapses (its survivor is swapped into the grandparent, whose version does
+        # not change) while the survivor splits and a third thread descends through the collapsing interior
+        J.append(("collapse2", "random", ["scenarios=%d" % (4 if q else 12), "runs=%d" % (60 if q else 300), "threads=3", "opsper=1"]))
+        J.append(("collapse2", "pct", ["scenarios=%d" % (4 if q else 12), "runs=%d" % (60 if q else 300), "threads=3", "opsper=1"]))
+        # directed: W stops just before it locks the survivor, D stops while it holds the collapsing interior, then W, P, D, P, W, P
+        J.append(("collapse2", "pre2", ["scenarios=%d" % (3 if q else 10), "threads=3", "opsper=1"]))
+        if prop == "C01":   # inline values: a slot word that holds the value itself
+            for fam in ["border", "two", "layer"]:
+                J.append((fam, "random", ["scenarios=%d" % (15 if q else 80), "runs=%d" % (12 if q else 30), "threads=2", "opsper=2", "inl=1"]))
+                J.append((fam, "pre1", ["scenarios=%d" % (6 if q else 30), "threads=2", "opsper=2", "inl=1"]))
         if prop == "C01":   # lookup of a leaf's greatest key vs removes / re-inserts of other keys of that leaf
             for fam in ["border", "full", "two"]:
                 J.append((fam, "pre1", ["scenarios=%d" % (6 if q else 30), "threads=2", "opsper=2", "directed=2"]))
@@ -67,6 +77,11 @@ def plan(prop, tier):
             J.append((fam, "pct", ["scenarios=%d" % (8 if q else 30), "runs=%d" % (10 if q else 30), "threads=3", "opsper=2", "directed=2"]))
             # the same with scans as readers (whole leaf, and greatest-key query right-to-left)
             J.append((fam, "pre1", ["scenarios=%d" % (8 if q else 30), "threads=2", "opsper=2", "scans=100", "directed=2"]))
+        # inline values (std::uintptr_t stored in the slot word itself): the slot is never wiped by a remove, readers rely on that
+        for fam in ["border", "full"]:
+            J.append((fam, "random", ["scenarios=%d" % (20 if q else 100), "runs=%d" % (12 if q else 30), "threads=2", "opsper=2", "inl=1"]))
+            J.append((fam, "pre1", ["scenarios=%d" % (8 if q else 30), "threads=2", "opsper=2", "inl=1"]))
+            J.append((fam, "pre1", ["scenarios=%d" % (6 if q else 30), "threads=2", "opsper=2", "scans=60", "inl=1", "directed=2"]))
     elif prop == "C15c":
         for fam in ["border", "full", "two", "layer"]:
             J.append((fam, "random", ["scenarios=%d" % (25 if q else 120), "runs=%d" % (12 if q else 30), "threads=2", "opsper=2"]))
